@@ -7,6 +7,7 @@ HERE = os.path.dirname(os.path.abspath(__file__)); VERIF = os.path.dirname(HERE)
 sys.path.insert(0, HERE)
 import props as P
 from verus_run import verify_unit
+import driver
 unit_files = {}
 for u in P.UNITS:
     t = open(os.path.join(VERIF, 'contracts', u + '.rs.tmpl')).read()
@@ -28,7 +29,10 @@ def one(name):
                 w = tempfile.mkdtemp(prefix='w-', dir=d)
                 r = verify_unit(u, d, w, P.UNITS[u]['rlimit'], P.UNITS[u]['timeout'], False, 4)
                 merged = [i['path'] for i in r.unit.items if i['status'] != 'identical'] if r.unit else []
-                out.append((u, r.status, (r.reason or '')[:160] + ' failed=' + str([f for f, _ in r.failed][:4]) if r.status != 'ok' else 'merged=%s' % merged[:3]))
+                st = r.status
+                if st == 'violation' and all(driver.fn_proof_perturbed(r.unit, f) or not driver.fn_was_changed(r.unit, f) for f, _ in r.failed):
+                    st = 'undecided(policy)'
+                out.append((u, st, (r.reason or '')[:160] + ' failed=' + str([f for f, _ in r.failed][:4]) if r.status != 'ok' else 'merged=%s' % merged[:3]))
     finally:
         shutil.rmtree(d, ignore_errors=True)
     return name, out
